@@ -270,7 +270,6 @@ func main() {
 	cfg := vh.ParseFlags()
 	r := vh.NewRand(cfg.Seed)
 	out := vh.NewOut(cfg.Out, "From Coq Require Import List Arith Bool.\nImport ListNotations.\nFrom LinDBV.C18 Require Import Model Check.\n")
-	var names []string
 
 	nHist := cfg.N
 	for h := 0; h < nHist; h++ {
@@ -300,8 +299,7 @@ func main() {
 		for _, e := range evs {
 			es = append(es, e.coq())
 		}
-		out.Coqf("Definition c%d := check_hist %s\n  %s.\n", idx, vh.List(es), vh.List(obs))
-		names = append(names, fmt.Sprintf("(%d, c%d)", idx, idx))
+		out.Check(idx, fmt.Sprintf("check_hist %s\n  %s", vh.List(es), vh.List(obs)))
 	}
 
 	// direct calls of ShardAssignment / ModifyShardAssignment with fixed start index
@@ -334,8 +332,7 @@ func main() {
 			} else {
 				out.Count("assign:error")
 			}
-			out.Coqf("Definition c%d := check_assign %s %d %d %d %d %s.\n", idx, vh.NatList(nodes), num, rf, start, start, rs)
-			names = append(names, fmt.Sprintf("(%d, c%d)", idx, idx))
+			out.Check(idx, fmt.Sprintf("check_assign %s %d %d %d %d %s", vh.NatList(nodes), num, rf, start, start, rs))
 		} else {
 			oldN := r.Range(1, 2*n+1)
 			oldDB := &models.Database{Name: "d", NumOfShard: oldN, ReplicaFactor: rf, Option: &option.DatabaseOption{}}
@@ -360,11 +357,8 @@ func main() {
 			} else {
 				out.Count("modify:error")
 			}
-			out.Coqf("Definition c%d := check_modify %s %s %d %d %d %d %s.\n", idx, vh.NatList(nodes2), oldCoq, num, rf, start, start, rs)
-			names = append(names, fmt.Sprintf("(%d, c%d)", idx, idx))
+			out.Check(idx, fmt.Sprintf("check_modify %s %s %d %d %d %d %s", vh.NatList(nodes2), oldCoq, num, rf, start, start, rs))
 		}
 	}
-	out.Coqf("Definition results : list (nat * (nat * nat)) := %s.\n", vh.List(names))
-	out.Coqf("Definition bad := Eval vm_compute in filter (fun '(_, (c, o)) => negb ((c =? 0) && (o =? 0))) results.\nPrint bad.\n")
 	out.Finish()
 }
